@@ -1,0 +1,27 @@
+//go:build verif
+
+package pslice
+
+import "unsafe"
+
+// VerifBinMem returns, for every bin, the length and capacity of the bin's slice
+// header and the address of its backing array (nil for a nil slice). cap() and the
+// array identity are not observable through the public API; the C21 harness compares
+// them with a model of the slice memory (which Add/Remove writes are in place, which
+// allocate). The pointers also keep the arrays alive, so an array the caller still
+// remembers is never reused for a later allocation.
+func (s *PSlice) VerifBinMem() (lens, caps []int, arrays []unsafe.Pointer) {
+	s.mu.RLock()
+	defer s.mu.RUnlock()
+
+	lens = make([]int, len(s.peers))
+	caps = make([]int, len(s.peers))
+	arrays = make([]unsafe.Pointer, len(s.peers))
+	for i, peers := range s.peers {
+		lens[i] = len(peers)
+		caps[i] = cap(peers)
+		p := peers
+		arrays[i] = *(*unsafe.Pointer)(unsafe.Pointer(&p)) // first word of the slice header (go.mod is go1.17: no unsafe.SliceData)
+	}
+	return lens, caps, arrays
+}
